@@ -223,3 +223,84 @@ func H_C17_reverse_long() {
 	verifAssert(hSameSlots(before, hSnapList(l, false)), "Reverse twice restores the list")
 	verifReach("end")
 }
+
+// Sort inside a history: the list may have been produced by NewListOf / SubList / Concat (slots of one or
+// several lists may then hold one shared scalar wrapper), may have been sorted or reversed before, and is
+// mutated between two sorts. Every Sort must order the *current* content; lists related to the receiver
+// by derivation are not touched.
+func H_C17_sort_in_history() {
+	verifBound("LISTN_HISTORY", 3)
+	a, b, c := nondetInt(), nondetInt(), nondetInt()
+	var l, other List
+	var otherWant []int
+	switch nondetIntRange(0, 3) {
+	case 0:
+		l = NewListOf(a, 3)
+		l.Replace(nondetIntRange(0, 2), b)
+	case 1:
+		other = NewList(a, b, c)
+		otherWant = []int{a, b, c}
+		l = other.SubList(0, 0)
+	case 2:
+		other = NewList(a)
+		otherWant = []int{a}
+		l = other.Concat(NewList(b, c))
+	default:
+		l = NewList(a, b, c)
+	}
+	sortedNow := func(what string) {
+		n := l.Count()
+		ok := true
+		for i := 0; i+1 < n; i++ {
+			ok = verifAnd(ok, l.GetInt(i) <= l.GetInt(i+1))
+		}
+		verifAssert(ok, what)
+	}
+	multisetIs := func(want []int, what string) {
+		n := l.Count()
+		verifAssert(n == len(want), what)
+		if n != len(want) {
+			return
+		}
+		ok := true
+		for i := 0; i < n; i++ {
+			cb, ca := 0, 0
+			for j := 0; j < n; j++ {
+				cb += verifIteInt(want[j] == want[i], 1, 0)
+				ca += verifIteInt(l.GetInt(j) == want[i], 1, 0)
+			}
+			ok = verifAnd(ok, cb == ca)
+		}
+		verifAssert(ok, what)
+	}
+	cur := l.IntSlice()
+	l.Sort()
+	sortedNow("Sort yields non-decreasing order")
+	multisetIs(cur, "Sort keeps the multiset of elements")
+	// something happens to the sorted list, then it is sorted again
+	d := nondetInt()
+	switch nondetIntRange(0, 4) {
+	case 0:
+		l.Reverse()
+	case 1:
+		l.Replace(nondetIntRange(0, l.Count()-1), d)
+	case 2:
+		l.Add(d)
+	case 3:
+		l.Insert(0, d)
+	default:
+		l.SetTF("#1", d)
+	}
+	cur = l.IntSlice()
+	l.Sort()
+	sortedNow("Sort after a mutation of an already sorted list yields non-decreasing order")
+	multisetIs(cur, "Sort after a mutation keeps the multiset of the current elements")
+	if other != nil {
+		ok := other.Count() == len(otherWant)
+		for i := 0; ok && i < len(otherWant); i++ {
+			ok = verifAnd(ok, verifAnd(other.TypeOf(i) == TypeInt, other.GetInt(i) == otherWant[i]))
+		}
+		verifAssert(ok, "sorting a derived list leaves the list it was derived from unchanged")
+	}
+	verifReach("end")
+}
